@@ -9,7 +9,7 @@ from ..registry import SPECS, Batch, fresh_cfg, public_cfg, new_metric
 from ..engine import observe, same_obs, obs_json, snapshot, snap_equal, try_update, gen_stream
 
 FAULTS = ["drop_dim", "add_dim", "shorter", "longer", "size1", "empty", "zerodim", "to_bool", "to_int", "to_f64", "to_f16",
-          "neg_label", "big_label", "nan", "inf", "none", "string", "pylist", "missing_arg", "extra_kwarg", "wider_all", "ndarray"]
+          "neg_label", "big_label", "nan", "inf", "none", "string", "pylist", "missing_arg", "extra_kwarg", "wider_all", "ndarray:0", "ndarray:1", "ndarray:2"]
 
 
 def mutate_tensor(t: torch.Tensor, fault: str):
@@ -60,6 +60,19 @@ def mutate_tensor(t: torch.Tensor, fault: str):
 
 
 def faulty(b: Batch, fault: str, which: int):
+    if fault.startswith("ndarray:"):
+        # the k-th tensor argument (positional or keyword: weights included) as a numpy array
+        which = int(fault.split(":")[1])
+        keys = [("a", i) for i, a in enumerate(b.args) if isinstance(a, torch.Tensor)] + [("k", k) for k, a in b.kwargs.items() if isinstance(a, torch.Tensor)]
+        if which >= len(keys):
+            return None
+        args, kwargs = list(b.args), dict(b.kwargs)
+        kind, key = keys[which]
+        if kind == "a":
+            args[key] = args[key].detach().cpu().numpy().copy()
+        else:
+            kwargs[key] = kwargs[key].detach().cpu().numpy().copy()
+        return Batch(tuple(args), kwargs)
     if fault == "missing_arg":
         return Batch(b.args[:-1], dict(b.kwargs)) if b.args else None
     if fault == "extra_kwarg":
@@ -199,6 +212,8 @@ def gen_case(case):
         b = spec.gen(rng, cfg, rng.choice(spec.sizes))
         fb = faulty(b, fault, rng.randrange(4))
         return None if fb is None else recipe("fn", spec, cfg, [], fb, [])
+    if fault == "ndarray:2":
+        cfg["_v"] = 0.0          # the generators' weighted variant: the third tensor argument is the weight
     hist = gen_stream(spec, cfg, rng, rng.randint(1 if fault == "wider_all" else 0, 2))
     good = spec.gen(rng, cfg, rng.choice(spec.sizes))
     fb = faulty(good, fault, rng.randrange(4))
